@@ -8,6 +8,7 @@ package main
 import (
 	"context"
 	"crypto/rand"
+	"encoding/base64"
 	"encoding/json"
 	"fmt"
 	"net"
@@ -329,6 +330,9 @@ func (l *L2) Dial(id int) (*L2Client, error) {
 	}
 	cfg.Header.Set(connHeader, strconv.Itoa(id))
 	cfg.Header.Set("User-Agent", "verif")
+	// an (unverified) user token whose app key differs between odd and even connections: the per-app labels of the
+	// gauges are exercised by sessions whose members belong to different apps
+	cfg.Header.Set("Authorization", "Bearer "+appToken(fmt.Sprintf("app%d", id%2)))
 	cfg.Header.Set("X-Posemesh-Client-ID", fmt.Sprintf("client-%d", id))
 	raw, err := net.DialTimeout("tcp", strings.TrimPrefix(l.srv.URL, "http://"), 5*time.Second)
 	if err != nil {
@@ -343,6 +347,32 @@ func (l *L2) Dial(id int) (*L2Client, error) {
 	l.clients[id] = c
 	go c.readLoop()
 	return c, nil
+}
+
+func appToken(appKey string) string {
+	enc := base64.RawURLEncoding.EncodeToString
+	return enc([]byte(`{"alg":"HS256","typ":"JWT"}`)) + "." + enc([]byte(`{"app_key":"`+appKey+`"}`)) + "." + enc([]byte("sig"))
+}
+
+// labelImbalance sums |after - before| over the label sets of a gauge: 0 when every label is back at its baseline
+func labelImbalance(before, after map[string]float64) int {
+	n := 0.0
+	for k, v := range after {
+		d := v - before[k]
+		if d < 0 {
+			d = -d
+		}
+		n += d
+	}
+	for k, v := range before {
+		if _, ok := after[k]; !ok {
+			if v < 0 {
+				v = -v
+			}
+			n += v
+		}
+	}
+	return int(n + 0.5)
 }
 
 func (c *L2Client) readLoop() {
